@@ -16,7 +16,7 @@
 (* [case, record index, reason] to `rej` (each reason once per case) and   *)
 (* checking goes on, so one rejection never hides the rest of the file.    *)
 (***************************************************************************)
-EXTENDS Kanren, Json, IOUtils
+EXTENDS Ref, Json, IOUtils
 
 Obs == ndJsonDeserialize(IOEnv.OBS)
 
@@ -29,13 +29,15 @@ VARIABLES l,      \* index of the next record
           fin,    \* stores recorded by the final probe
           rej,    \* rejections
           seen,   \* reasons already recorded for the current case
-          nok     \* number of cases accepted
-vars == <<l, cur, S, prevI, posted, got, fin, rej, seen, nok>>
+          nok,    \* number of cases accepted
+          hist    \* results of the earlier cases of the current group (cases that carry the
+                  \* same "group" field are consecutive; the last one names the check)
+vars == <<l, cur, S, prevI, posted, got, fin, rej, seen, nok, hist>>
 
 NoCase == [id |-> "none", kind |-> "none"]
 
 Init == /\ l = 1 /\ cur = NoCase /\ S = InitK(0) /\ prevI = InitK(0) /\ posted = <<>>
-        /\ got = <<>> /\ fin = <<>> /\ rej = <<>> /\ seen = {} /\ nok = 0
+        /\ got = <<>> /\ fin = <<>> /\ rej = <<>> /\ seen = {} /\ nok = 0 /\ hist = <<>>
 
 -----------------------------------------------------------------------------
 (* JSON -> specification values *)
@@ -116,28 +118,84 @@ AnswerReason(a) ==
 
 Fuel == IF "fuel" \in DOMAIN cur THEN cur.fuel ELSE 12
 
+Flag(name) == name \in DOMAIN cur /\ cur[name]
+
+(* comparison of an emission sequence `impl` with the reference `spec` (both sequences of
+   the same kind of value, Eq an equivalence on it) *)
+SeqReasons(spec, cut, impl, Eq(_, _), rec) ==
+  IF cut
+  THEN (* infinitely many (or too many) answers: every recorded answer is an answer *)
+       One(IF \A i \in 1..Len(impl) : \E j \in 1..Len(spec) : Eq(impl[i], spec[j])
+           THEN "" ELSE "invented_answer")
+  ELSE
+  FirstReason(<<
+    IF rec.kind = "exhausted" \/ (rec.kind = "take" /\ Len(impl) <= Len(spec)) THEN "" ELSE "did_not_terminate",
+    IF \A i \in 1..Len(impl) : \E j \in 1..Len(spec) : Eq(impl[i], spec[j])
+    THEN "" ELSE "invented_answer",
+    IF rec.kind # "exhausted" \/ \A j \in 1..Len(spec) : \E i \in 1..Len(impl) : Eq(impl[i], spec[j])
+    THEN "" ELSE "missing_answer",
+    IF rec.kind # "exhausted" \/ BagEquiv(spec, impl, Eq) THEN "" ELSE "wrong_multiplicity",
+    IF ~Flag("ordered") \/ (Len(impl) <= Len(spec) /\ \A i \in 1..Len(impl) : Eq(impl[i], spec[i]))
+    THEN "" ELSE "wrong_order",
+    IF \A i \in 1..Len(rec.after) : rec.after[i] THEN "" ELSE "not_fused"
+  >>)
+
 (* end of a query case: answers against the reference semantics *)
 QueryEndReason(rec) ==
   IF rec.kind = "toolerr" THEN {"tool_error"}
   ELSE IF rec.kind = "panic" THEN {"panic"}
+  ELSE IF rec.kind = "budget" THEN {"budget_exhausted"}
+  ELSE
+  IF Flag("noref") THEN {}
   ELSE
   LET spec == QueryAnswers(cur, Fuel)
       impl == [i \in 1..Len(got) |-> ImplAnswer(got[i])]
-  IN
-  IF spec.cut
-  THEN (* infinitely many (or too many) answers: every recorded answer is an answer *)
-       One(IF \A i \in 1..Len(impl) : \E j \in 1..Len(spec.answers) : AnsEquiv(impl[i], spec.answers[j])
-           THEN "" ELSE "invented_answer")
+  IN SeqReasons(spec.answers, spec.cut, impl, AnsEquiv, rec)
+
+(* end of a solver case: emitted states against the reference semantics *)
+StateEquiv(a, b) ==
+  /\ a.u.trail = b.u.trail
+  /\ (Flag("trail_only") \/ (TreeStoreEquiv(a, b) /\ a.ds = b.ds))
+SolverEndReason(rec) ==
+  IF rec.kind = "toolerr" THEN {"tool_error"}
+  ELSE IF rec.kind = "panic" THEN {"panic"}
+  ELSE IF rec.kind = "budget" THEN {"budget_exhausted"}
   ELSE
-  FirstReason(<<
-    IF rec.kind = "exhausted" THEN "" ELSE "did_not_terminate",
-    IF \A i \in 1..Len(impl) : \E j \in 1..Len(spec.answers) : AnsEquiv(impl[i], spec.answers[j])
-    THEN "" ELSE "invented_answer",
-    IF \A j \in 1..Len(spec.answers) : \E i \in 1..Len(impl) : AnsEquiv(impl[i], spec.answers[j])
-    THEN "" ELSE "missing_answer",
-    IF BagEquiv(spec.answers, impl, AnsEquiv) THEN "" ELSE "wrong_multiplicity",
-    IF \A i \in 1..Len(rec.after) : rec.after[i] THEN "" ELSE "not_fused"
-  >>)
+  IF Flag("noref") THEN {}
+  ELSE
+  LET spec == Eval(cur.goal, InitK(0), Fuel, DefsOf(cur))
+      impl == [i \in 1..Len(got) |-> StoreOfJson(got[i])]
+  IN SeqReasons(spec.out, spec.cut, impl, StateEquiv, rec)
+     \cup One(IF "ticks" \in DOMAIN cur /\ rec.kind = "exhausted" /\ rec.tick # cur.ticks
+              THEN "model_tick_mismatch" ELSE "")
+
+(* Groups: implementation-against-implementation comparisons across the cases of a group.
+     same_bag   every case has the same answer multiset as the first one
+     same_seq   every case has the same answer sequence as the first one
+     union      the first case's answers are the multiset union of the others' *)
+ImplResults == IF cur.mode = "query" THEN [i \in 1..Len(got) |-> ImplAnswer(got[i])]
+               ELSE [i \in 1..Len(got) |-> StoreOfJson(got[i])]
+GroupOf(c) == IF "group" \in DOMAIN c THEN c.group ELSE "none"
+HistAfter(rec) ==
+  LET e == [group |-> GroupOf(cur), res |-> ImplResults, kind |-> rec.kind] IN
+  IF Len(hist) > 0 /\ hist[1].group = e.group /\ e.group # "none" THEN Append(hist, e) ELSE <<e>>
+GroupReasons(rec) ==
+  IF "gcheck" \notin DOMAIN cur THEN {}
+  ELSE
+  LET h == HistAfter(rec)
+      Eq(a, b) == IF cur.mode = "query" THEN AnsEquiv(a, b) ELSE StateEquiv(a, b)
+      RECURSIVE Cat(_)
+      Cat(i) == IF i > Len(h) THEN <<>> ELSE h[i].res \o Cat(i + 1)
+  IN
+  IF \E i \in 1..Len(h) : h[i].kind # "exhausted" /\ h[i].kind # "take" THEN {}
+  ELSE CASE cur.gcheck = "same_bag" ->
+              One(IF \A i \in 2..Len(h) : BagEquiv(h[1].res, h[i].res, Eq) THEN "" ELSE "group_bags_differ")
+         [] cur.gcheck = "same_seq" ->
+              One(IF \A i \in 2..Len(h) : Len(h[i].res) = Len(h[1].res)
+                                           /\ \A n \in 1..Len(h[1].res) : Eq(h[1].res[n], h[i].res[n])
+                  THEN "" ELSE "group_sequences_differ")
+         [] cur.gcheck = "union" ->
+              One(IF BagEquiv(h[1].res, Cat(2), Eq) THEN "" ELSE "group_union_differs")
 
 -----------------------------------------------------------------------------
 Rec == Obs[l]
@@ -155,7 +213,7 @@ Next ==
   /\ IF Rec.k = "reset"
      THEN /\ cur' = Rec.c /\ seen' = {} /\ rej' = rej
           /\ S' = InitK(IF "k" \in DOMAIN Rec.c THEN Rec.c.k ELSE 0) /\ prevI' = InitK(0)
-          /\ posted' = <<>> /\ got' = <<>> /\ fin' = <<>> /\ nok' = nok
+          /\ posted' = <<>> /\ got' = <<>> /\ fin' = <<>> /\ nok' = nok /\ hist' = hist
      ELSE IF Rec.k = "store_op"
      THEN LET S1 == Post(S, Rec.op)
               Snext == IF S1.ok THEN S1 ELSE S
@@ -163,24 +221,28 @@ Next ==
           IN /\ Note(StoreOpReason(Rec, Snext, S1.ok, I))
              /\ S' = Snext /\ prevI' = I
              /\ posted' = IF S1.ok THEN Append(posted, Rec.op) ELSE posted
-             /\ UNCHANGED <<cur, got, fin, nok>>
+             /\ UNCHANGED <<cur, got, fin, nok, hist>>
      ELSE IF Rec.k \in {"answer", "state"}
      THEN /\ Note(IF Rec.k = "answer" THEN AnswerReason(Rec.a) ELSE {})
           /\ got' = Append(got, IF Rec.k = "answer" THEN Rec.a ELSE Rec.s)
-          /\ UNCHANGED <<cur, S, prevI, posted, fin, nok>>
+          /\ UNCHANGED <<cur, S, prevI, posted, fin, nok, hist>>
      ELSE IF Rec.k \in {"final", "probe"}
      THEN LET I == StoreOfJson(Rec.s) IN
           /\ Note(One(BalanceReason(I)))
           /\ fin' = IF Rec.k = "final" THEN Append(fin, I) ELSE fin
-          /\ UNCHANGED <<cur, S, prevI, posted, got, nok>>
+          /\ UNCHANGED <<cur, S, prevI, posted, got, nok, hist>>
      ELSE IF Rec.k = "end"
-     THEN LET why == IF cur.kind = "program" /\ cur.mode = "query" THEN QueryEndReason(Rec)
-                     ELSE IF Rec.kind = "toolerr" THEN {"tool_error"}
-                     ELSE IF Rec.kind = "panic" THEN {"panic"} ELSE {}
+     THEN LET isProg == cur.kind = "program"
+              why == (IF isProg /\ cur.mode = "query" THEN QueryEndReason(Rec)
+                      ELSE IF isProg /\ cur.mode = "solver" THEN SolverEndReason(Rec)
+                      ELSE IF Rec.kind = "toolerr" THEN {"tool_error"}
+                      ELSE IF Rec.kind = "panic" THEN {"panic"} ELSE {})
+                     \cup (IF isProg THEN GroupReasons(Rec) ELSE {})
           IN /\ Note(why)
              /\ nok' = IF seen \cup why = {} THEN nok + 1 ELSE nok
+             /\ hist' = IF isProg THEN HistAfter(Rec) ELSE hist
              /\ UNCHANGED <<cur, S, prevI, posted, got, fin>>
-     ELSE UNCHANGED <<cur, S, prevI, posted, got, fin, rej, seen, nok>>
+     ELSE UNCHANGED <<cur, S, prevI, posted, got, fin, rej, seen, nok, hist>>
 
 Spec == Init /\ [][Next]_vars
 
